@@ -1,7 +1,5 @@
 package main
 
-func elgamalAll(r *runner, c counts)                              {}
-func elgamalReplay(r *runner, c counts, stream string, idx int)   {}
-func intcomAll(r *runner, c counts)                               {}
-func intcomReplay(r *runner, c counts, stream string, idx int)    {}
-func extractCase(r *runner, i int)                                {}
+func intcomAll(r *runner, c counts)                            {}
+func intcomReplay(r *runner, c counts, stream string, idx int) {}
+func extractCase(r *runner, i int)                             {}
